@@ -387,4 +387,24 @@ def oracleC18 (st : AppsOState) (op obs : String) : AppsOState × Option (String
     | _ => (st, none)
   | [] => (st, none)
 
+/-- C05 on the `apps` engine: the `no_panic` clause of the C18 oracle (which knows which histories
+are inside the FDL contract; the engine also generates addresses up to 255 and foreign telegrams,
+whose panics are outside it), reported under class C05. -/
+def oracleC05apps (st : AppsOState) (op obs : String) : AppsOState × Option (String × String) :=
+  let (st', r) := oracleC18 st op obs
+  match r with
+  | some (_, why) => if why.startsWith "no_panic" then (st', some ("C05", why)) else (st', none)
+  | none => (st', none)
+
+/-- Generic C05 oracle for the composed engines (every history is produced by a real FDL station, so
+every panic / hang is one inside `poll()`): any observation `panic…` / `hang`, except on the
+constructor ops (`X.new`, `dp.add`), whose assertions are documented (`ParametersBuilder`,
+"panics if the storage is full"). -/
+def oracleC05any (op obs : String) : Option (String × String) :=
+  let head := (splitWords op).headD ""
+  if head.endsWith ".new" || head == "dp.add" then none
+  else if obs.startsWith "panic" || obs == "hang" then
+    some ("C05", s!"a panic / non-returning call inside an application attached to the FDL station: {head} -> {obs}")
+  else none
+
 end PV.Driver
